@@ -13,7 +13,10 @@ Record pfinal := mkPFinal { pf_ch : N; pf_entries : list (N * N); pf_clients : N
 Inductive case :=
 | CPres (ops : list pop) (steps : list (N * N)) (final : list pfinal) (uids : list N)
     (* steps: PresenceStats of the operation's channel after every call *)
-| CLife (c : SLCommon.case).
+| CLife (c : SLCommon.case)
+| CTick (subs : list (N * bool)) (ticks : list (list N)).
+    (* subs: the connection's subscriptions (channel, presence enabled); ticks: per presence tick that ran
+       alone, the channels of the AddPresence calls it made (sequential or concurrent variant) *)
 
 Definition pop_ch (o : pop) : N := match o with PAdd c _ _ | PRemove c _ => c end.
 
@@ -46,10 +49,21 @@ Definition life_corr_rot (rot : bool) (c : SLCommon.case) : bool :=
                         ch_flags_ok s o) (ob_chs ob)
   end.
 
+(* tick variants: the refreshed channels of every tick = the model tick's snapshot [pres_items] of
+   c.channels with these subscriptions (each item is visited once by TCheck/TAdd), as multisets *)
+Definition tick_chans (subs : list (N * bool)) : amap ctx :=
+  fold_left (fun m p => insert (fst p) (mkCtx (1 + N.of_nat (length m)) true true false (mkOpts (snd p) false)) m) subs [].
+Definition tick_expected (subs : list (N * bool)) : list N := map fst (pres_items (tick_chans subs)).
+Definition countN (c : N) (l : list N) : nat := length (filter (N.eqb c) l).
+Definition same_multiset (a b : list N) : bool := forallb (fun c => Nat.eqb (countN c a) (countN c b)) (a ++ b).
+Definition tick_corr (subs : list (N * bool)) (ticks : list (list N)) : bool :=
+  forallb (same_multiset (tick_expected subs)) ticks.
+
 Definition corr (c : case) : bool :=
   match c with
   | CPres ops steps final uids => pres_corr ops steps final uids
   | CLife lc => life_corr_rot false lc || life_corr_rot true lc
+  | CTick subs ticks => tick_corr subs ticks
   end.
 
 (* ---- the property on observed behaviour ---- *)
@@ -78,10 +92,17 @@ Definition life_oracle (c : SLCommon.case) : bool :=
   negb (ob_settled ob) ||
   forallb (fun o => Bool.eqb (co_pres o) (co_issub o && co_fpres o)) (ob_chs ob).
 
+(* every tick refreshes every subscription with presence exactly once and nothing else *)
+Definition tick_oracle (subs : list (N * bool)) (ticks : list (list N)) : bool :=
+  forallb (fun t =>
+    forallb (fun p : N * bool => Nat.eqb (countN (fst p) t) (if snd p then 1%nat else 0%nat)) subs &&
+    forallb (fun c : N => existsb (fun p : N * bool => fst p =? c) subs) t) ticks.
+
 Definition oracle (c : case) : bool :=
   match c with
   | CPres ops _ final uids => pres_oracle ops final uids
   | CLife lc => life_oracle lc
+  | CTick subs ticks => tick_oracle subs ticks
   end.
 
 Definition run (cs : list case) := failing corr oracle cs.
